@@ -109,9 +109,9 @@ class RemoteStore(Store):
         return res["listdir"]
 
     def makedir(self, key):
-        while key not in (None, ""):
-            self.directories.add(key)
-            key = self.parent_key(key)
+        res = self.fetch_json(self.concat_api("store/makedir", key))
+        if res["status"] != "OK":
+            raise StoreException(res["message"], key=key, store=self)
         self.on_data_changed(key)
         self.on_metadata_changed(key)
 
